@@ -6,6 +6,8 @@
    whole milliseconds for the reachable time / retransmit timer, truncated). *)
 From Coq Require Import Lia.
 From CR Require Import Model.Verify.
+(* handle() verifies against an RA built for that reception (extracted): fresh_sources in Properties/Fresh.v *)
+From CR Require Properties.Fresh.
 From CR Require Import Model.VerifySpec.
 From CR Require Import Proofs.Verify.
 From CR Require Import Proofs.VerifySpec.
